@@ -358,15 +358,15 @@ Proof.
     + reflexivity.
 Qed.
 
-Lemma add_end_eq syms rows finals :
-  NoDup (map fst rows) -> ~ In (length rows) (map fst rows) -> incl finals (map fst rows) ->
-  add_end syms rows finals =
-  (map (fun r => if memb (fst r) finals then (fst r, map (fun a => (a, length rows)) syms) else r) rows
-     ++ [(length rows, map (fun a => (a, length rows)) syms)],
-   finals ++ [length rows]).
+Lemma add_end_eq syms e rows finals :
+  NoDup (map fst rows) -> ~ In e (map fst rows) -> incl finals (map fst rows) ->
+  add_end syms e rows finals =
+  (map (fun r => if memb (fst r) finals then (fst r, map (fun a => (a, e)) syms) else r) rows
+     ++ [(e, map (fun a => (a, e)) syms)],
+   finals ++ [e]).
 Proof.
   intros Hnd Hfresh Hinc. unfold add_end.
-  assert (Hm : memb (length rows) finals = false) by (apply memb_false; intro H; apply Hfresh, Hinc; exact H).
+  assert (Hm : memb e finals = false) by (apply memb_false; intro H; apply Hfresh, Hinc; exact H).
   rewrite Hm. f_equal. rewrite (dict_set_fresh _ _ rows Hfresh).
   rewrite fold_redirect.
   - rewrite map_app. simpl. rewrite Hm. reflexivity.
@@ -382,7 +382,6 @@ Section ACDfa.
   Variable syms : list nat.
   Hypothesis Hsyms : NoDup syms.
   Hypothesis Hspec : ac_spec N P.
-  Hypothesis Hover : forall p, In p P -> word_over syms p.
 
   Variable rows : list (nat * list (nat * nat)).
   Variable finals : list nat.
@@ -402,26 +401,8 @@ Section ACDfa.
     apply (GI_complete N syms rows finals HG).
   Qed.
 
-  Lemma vis_all k : k < length N -> In k vis.
-  Proof.
-    destruct Hspec as [_ [_ [_ [_ [_ [_ [_ Hsur]]]]]]]. intro Hk. destruct (Hsur k Hk) as [s [Hs Hp]].
-    apply (vis_complete s k); [|exact Hs]. destruct Hp as [->|[p [Hp [v Ev]]]]; [constructor|].
-    pose proof (Hover p Hp) as Ho. rewrite Ev in Ho. unfold word_over in *. apply Forall_app in Ho. tauto.
-  Qed.
-
   Lemma vis_lt k : In k vis -> k < length N.
   Proof. destruct Hspec as [HV _]. intro H. destruct (vis_str k H) as [s [_ Hs]]. eapply HV. exact Hs. Qed.
-
-  Lemma rows_length : length rows = length N.
-  Proof.
-    assert (H1 : length vis <= length N).
-    { assert (Hinc : incl vis (seq 0 (length N))) by (intros k Hk; apply in_seq; pose proof (vis_lt k Hk); lia).
-      pose proof (NoDup_incl_length vis_NoDup Hinc) as H. rewrite seq_length in H. exact H. }
-    assert (H2 : length N <= length vis).
-    { assert (Hinc : incl (seq 0 (length N)) vis) by (intros k Hk; apply in_seq in Hk; apply vis_all; lia).
-      pose proof (NoDup_incl_length (seq_NoDup (length N) 0) Hinc) as H. rewrite seq_length in H. exact H. }
-    unfold vis in *. rewrite map_length in *. lia.
-  Qed.
 
   Lemma gf_closed q a : In q vis -> In a syms -> In (gf q a) vis.
   Proof.
@@ -488,23 +469,23 @@ Section ACDfa.
   Qed.
 
   (* ---- must_be_suffix = False: final states fall into the absorbing end state ---- *)
-  Let e := length rows.
+  Let e := length N.       (* len(labels) *)
   Definition d2 (q a : nat) : nat := if Nat.eqb q e then e else if memb q finals then e else gf q a.
 
   Lemma e_fresh : ~ In e vis.
-  Proof. intro H. apply vis_lt in H. unfold e in H. rewrite rows_length in H. lia. Qed.
+  Proof. intro H. apply vis_lt in H. unfold e in H. lia. Qed.
 
-  Lemma add_end_rows : fst (add_end syms rows finals) =
+  Lemma add_end_rows : fst (add_end syms e rows finals) =
     map (fun r => if memb (fst r) finals then (fst r, map (fun a => (a, e)) syms) else r) rows ++ [(e, map (fun a => (a, e)) syms)].
-  Proof. rewrite (add_end_eq syms rows finals vis_NoDup e_fresh finals_vis). reflexivity. Qed.
+  Proof. rewrite (add_end_eq syms e rows finals vis_NoDup e_fresh finals_vis). reflexivity. Qed.
 
-  Lemma rows2_keys : map fst (fst (add_end syms rows finals)) = vis ++ [e].
+  Lemma rows2_keys : map fst (fst (add_end syms e rows finals)) = vis ++ [e].
   Proof.
     rewrite add_end_rows, map_app. simpl. f_equal. rewrite map_map. apply map_ext.
     intros [q row]. simpl. destruct (memb q finals); reflexivity.
   Qed.
 
-  Lemma rows2_rowf q row : In (q, row) (fst (add_end syms rows finals)) -> row = map (fun a => (a, d2 q a)) syms.
+  Lemma rows2_rowf q row : In (q, row) (fst (add_end syms e rows finals)) -> row = map (fun a => (a, d2 q a)) syms.
   Proof.
     rewrite add_end_rows. intro Hin. apply in_app_or in Hin. destruct Hin as [Hin|[Ee|[]]].
     - apply in_map_iff in Hin. destruct Hin as [[q0 row0] [E Hin0]]. simpl in E.
@@ -574,13 +555,13 @@ Section ACDfa.
   Qed.
 
   Theorem ac_substring_dfa c :
-    let rf := add_end syms rows finals in
+    let rf := add_end syms e rows finals in
     let m := mkdfa (map fst (fst rf)) syms (fst rf) 0 (fin_of c (snd rf) (map fst (fst rf))) false in
     valid_dfa m = true /\ forall w, dfa_acc m w = overb syms w && flagb c (anysubb P w).
   Proof.
     cbn zeta. rewrite rows2_keys.
-    replace (snd (add_end syms rows finals)) with (finals ++ [e])
-      by (rewrite (add_end_eq syms rows finals vis_NoDup e_fresh finals_vis); reflexivity).
+    replace (snd (add_end syms e rows finals)) with (finals ++ [e])
+      by (rewrite (add_end_eq syms e rows finals vis_NoDup e_fresh finals_vis); reflexivity).
     assert (Hinit : In 0 (vis ++ [e])) by (apply in_or_app; left; exact init_vis).
     assert (Hfin : incl (fin_of c (finals ++ [e]) (vis ++ [e])) (vis ++ [e])).
     { unfold fin_of. destruct c.
@@ -622,11 +603,11 @@ Proof.
     exact (ac_suffix_dfa N pats syms Hnd Hs rows finals HG c).
 Qed.
 
-Theorem ac_dfa_substring_correct syms pats c : NoDup syms -> (forall p, In p pats -> word_over syms p) ->
+Theorem ac_dfa_substring_correct syms pats c : NoDup syms ->
   exists m, ac_dfa syms pats c false = Ok m /\ valid_dfa m = true /\
     forall w, dfa_acc m w = overb syms w && flagb c (anysubb pats w).
 Proof.
-  intros Hnd Hover. unfold ac_dfa.
+  intro Hnd. unfold ac_dfa.
   match goal with |- context [existsb ?f pats] => destruct (existsb f pats) eqn:Ee end.
   - apply existsb_exists in Ee. destruct Ee as [p [Hp Hnil]]. destruct p; [|discriminate].
     assert (Hall : forall w, anysubb pats w = true).
@@ -643,5 +624,5 @@ Proof.
     destruct (goto_bfs_ok N syms Hnd HV HI Hroot HF (S (length N)) [0] [] [] (GI_init N syms HI)) as [rows [finals [Eb HG]]];
       [simpl; lia|].
     rewrite Eb. cbn [bind]. eexists. split; [reflexivity|].
-    exact (ac_substring_dfa N pats syms Hnd Hs Hover rows finals HG c).
+    exact (ac_substring_dfa N pats syms Hnd Hs rows finals HG c).
 Qed.
